@@ -451,6 +451,18 @@ func (lx *leaseX) acquire(sb *strings.Builder) error {
 		}
 		return true
 	})
+	// every return that hands a lease back (first result not nil), anywhere in the function
+	var succ []string
+	ast.Inspect(fd.Body, func(nd ast.Node) bool {
+		if _, ok := nd.(*ast.FuncLit); ok {
+			return false
+		}
+		if ret, ok := nd.(*ast.ReturnStmt); ok && len(ret.Results) == 2 && c.src(ret.Results[0]) != "nil" {
+			succ = append(succ, c.src(ret.Results[0])+","+c.src(ret.Results[1]))
+		}
+		return true
+	})
+	fmt.Fprintf(sb, "/-- AcquireLease: every `return <lease>, <err>` whose lease is not nil -/\ndef acquireSuccessReturns : List String := %s\n\n", leaseLeanStrs(succ))
 	fmt.Fprintf(sb, "/-- AcquireLease: results of readLease bound to -/\ndef acquireReadVars : List String := %s\n\n", leaseLeanStrs(readVars))
 	fmt.Fprintf(sb, "/-- AcquireLease: refuse (LeaseExistsError) when -/\ndef acquireBlocked (existsRec expired : Bool) : Bool :=\n  %s\n\n", guard)
 	fmt.Fprintf(sb, "/-- AcquireLease: generation of the new lease -/\ndef acquireGeneration (existing : Option Nat) : Nat :=\n  match existing with\n  | none => %s\n  | some g => %s\n\n", genInit, genStep)
